@@ -79,7 +79,12 @@ def cell(t):
 def creation(t):
     """mg.<fn>(*args, **kw) versus np.<fn>(*args, **kw) for explicit arguments (and the documented float32 defaults)"""
     fn, args, kw = t["fn"], t.get("args", []), dict(t.get("kw", {}))
-    args = [tuple(a) if isinstance(a, list) else a for a in args]
+    def dec(a):
+        # {"np": dtype, "v": value}: a NumPy scalar (scalar v) or array (list v) of that dtype
+        if isinstance(a, dict) and "np" in a:
+            return np.asarray(a["v"], dtype=a["np"])[()] if not isinstance(a["v"], list) else np.asarray(a["v"], dtype=a["np"])
+        return tuple(a) if isinstance(a, list) else a
+    args = [dec(a) for a in args]
     like = None
     if fn.endswith("_like"):
         like = np.arange(6).astype(t.get("like_dtype", "float64")).reshape(2, 3)
